@@ -25,7 +25,12 @@ pub fn rcfg(cfg: &TreeCfg) -> rtree::RCfg {
 
 /// render only what hangs under the document (detached context / form elements are not part of the result)
 pub fn compare(cfg: &TreeCfg, input: &str, o: &TreeOut) -> Option<(String, String)> {
-    let r = match guarded(|| rtree::parse(&rcfg(cfg), input)) {
+    compare_keyed(cfg, input, o).0
+}
+
+/// verdict plus the digest of the reference's state before end-of-file (second half of the product key)
+pub fn compare_keyed(cfg: &TreeCfg, input: &str, o: &TreeOut) -> (Option<(String, String)>, u128) {
+    let (r, key) = match guarded(|| rtree::parse_keyed(&rcfg(cfg), input)) {
         Ok(r) => r,
         Err(p) => machinery(&format!("R-tree panicked on {input:?} ({}): {p}", cfg.describe())),
     };
@@ -33,7 +38,7 @@ pub fn compare(cfg: &TreeCfg, input: &str, o: &TreeOut) -> Option<(String, Strin
     let got = sink.dom.borrow().render_doc();
     let want = r.dom.render_doc();
     if got != want {
-        return Some(("tree".into(), format!("html5ever:\n{got}\nWHATWG (R-tree):\n{want}")));
+        return (Some(("tree".into(), format!("html5ever:\n{got}\nWHATWG (R-tree):\n{want}"))), key);
     }
     let q = match sink.quirks.get() {
         html5ever::tree_builder::QuirksMode::NoQuirks => 0,
@@ -43,9 +48,9 @@ pub fn compare(cfg: &TreeCfg, input: &str, o: &TreeOut) -> Option<(String, Strin
     // the sink only hears about changes; the initial mode is the configured one
     let got_q = if sink_quirks_was_set(sink) { q } else { cfg.quirks };
     if got_q != r.quirks {
-        return Some(("quirks-mode".into(), format!("html5ever reports {got_q}, spec says {}", r.quirks)));
+        return (Some(("quirks-mode".into(), format!("html5ever reports {got_q}, spec says {}", r.quirks))), key);
     }
-    None
+    (None, key)
 }
 
 fn sink_quirks_was_set(s: &MSink) -> bool {
